@@ -99,6 +99,27 @@ pub fn wild_layout(n: usize, nx: usize, rng: &mut Rng, sparse: bool, max_files: 
                 });
             }
         }
+        // look-alikes of real blk file names (backup copies, editor leftovers): must be ignored
+        for _ in 0..rng.usize(0, 3) {
+            let f = rng.pick(&files);
+            let real = crate::world::blk_name(f.number, f.width);
+            let name = match rng.below(7) {
+                0 => format!("{}.bak", real),
+                1 => format!("{}~", real),
+                2 => format!("old-{}", real),
+                3 => format!("{}.1", real),
+                4 => format!("x{}", real),
+                5 => real.replace(".dat", ".data"),
+                _ => format!("{}.tmp", real),
+            };
+            if !extra_files.iter().any(|e: &ExtraFile| e.name == name) {
+                extra_files.push(ExtraFile {
+                    name,
+                    bytes: Bytes(rng.bytes_range(0, 3000)),
+                    is_dir: false,
+                });
+            }
+        }
         // a blk file no record names, and a directory with a blk name
         for is_dir in [false, true] {
             let mut k = 7000 + rng.below(1000);
